@@ -168,6 +168,22 @@ example : ∀ s ∈ ([.decl (.struct [.int, .array 2 (.struct [.int, .ptr .int])
   rcases hs with rfl | rfl | rfl | rfl | rfl | rfl | rfl | rfl | rfl | rfl | rfl | rfl <;>
     simp [wfStmt, Ctx.kind, Expr.var]
 
+/-- PARAMETER PASSING COPIES FOR EVERY ARGUMENT EXPRESSION FORM: `e` ranges over ALL expressions of the language —
+    a location `x.path`, or any nesting of temporaries around one (`result`: the result of a call that returns stored
+    data; `conv`: an identity conversion `T(x)`; `deref`: `*p`; `mapLoad`, `recv`, `unbox`) — and the program around the
+    call is arbitrary: whatever the callee does to its parameter and whatever happens to the source afterwards, the JS
+    run equals the Go run. (The translator clones in `translateArgs` for every argument, utils.go.) -/
+theorem arg_passing_copies (pre post : List Stmt) (e : Expr)
+    (hpre : ∀ s ∈ pre, wfStmt s) (hpost : ∀ s ∈ post, wfStmt s) :
+    runJS cloneAt (pre ++ .bind .arg e :: post) = runGo (pre ++ .bind .arg e :: post) := by
+  apply GV.Heap.value_semantics
+  intro s hs
+  rcases List.mem_append.1 hs with h | h
+  · exact hpre s h
+  · rcases List.mem_cons.1 h with rfl | h
+    · simp [wfStmt, Ctx.kind]
+    · exact hpost s h
+
 /-- RECEIVER-EVALUATION RULE of the table: the receiver of a method value, of `defer x.M()` and of `go x.M()` is copied at
     binding time, the automatic dereference of a pointer operand creates nothing — so (by `value_semantics`) binding
     through a pointer operand, mutating the pointee, then invoking the bound method twice behaves as in Go. -/
